@@ -82,23 +82,23 @@ def conforms (ct : ClassTable) : Spec → V → Bool
      | .str s => reMatches items f s
      | _ => false)
   | .list alts, t =>
-    (match t with
+    (match t.unsub with
      | .list items => items.all (confAny ct alts)
      | _ => false)
   | .set alts, t =>
-    (match t with
+    (match t.unsub with
      | .set items => items.all (confAny ct alts)
      | _ => false)
   | .fset alts, t =>
-    (match t with
+    (match t.unsub with
      | .fset items => items.all (confAny ct alts)
      | _ => false)
   | .tuple ps, t =>
-    (match t with
+    (match t.unsub with
      | .tuple items => items.length == ps.length && confZip ct ps items
      | _ => false)
   | .dict es, t =>
-    (match t with
+    (match t.unsub with
      | .dict items =>
        items.all (fun kv => confEntry ct es kv.1 kv.2) &&
        (requiredRef es 0).all (fun i => items.any (fun kv => claimIdx ct es 0 kv.1 == some i))
@@ -212,6 +212,22 @@ def noOptDefaults : List (KeyKind × Spec × Spec) → Bool
      | _ => true) && noOptDefaults r
 end
 
+/- "returning the target": the specs whose every rule hands back the object it was given, so
+   that a pass returns the TARGET ITSELF — M comparisons, `M`, Not, type atoms, literals,
+   callables, Regex, and And / Or / Match (without default) over such.  (Container patterns build
+   a new container; `Val`, T, Switch values, Check, defaults may yield another object.)  The harness
+   observes `result is target` for these. -/
+mutual
+def selfP : Spec → Bool
+  | .ty _ | .lit _ | .pred .. | .regex .. | .mtype | .msub _ | .mexpr .. | .not _ => true
+  | .and cs none | .or cs none => selfL cs
+  | .matchS s none => selfP s
+  | _ => false
+def selfL : List Spec → Bool
+  | [] => true
+  | s :: ss => selfP s && selfL ss
+end
+
 /-- no later member `==` an earlier one (what `set(...)` keeps) -/
 def distinctFrom : List V → List V → Bool
   | _, [] => true
@@ -228,6 +244,7 @@ def wfV : V → Bool
   | .list xs | .tuple xs => wfL xs
   | .set xs | .fset xs => wfL xs && distinctFrom [] xs
   | .dict es => wfD es && keysDistinct [] es
+  | .sub .. => false         -- a subclass instance comes back as an instance of the builtin class
   | _ => true
 def wfL : List V → Bool
   | [] => true
@@ -235,6 +252,45 @@ def wfL : List V → Bool
 def wfD : List (V × V) → Bool
   | [] => true
   | (k, v) :: r => wfV k && wfV v && wfD r
+end
+
+/-! ### "… a value equal to the target plus Optional defaults", structurally -/
+
+/-- every key pattern of the dict pattern hands the key back as it is -/
+def pureKeys : List (KeyKind × Spec × Spec) → Bool
+  | [] => true
+  | (_, k, _) :: r => pureP k && pureKeys r
+
+mutual
+/-- `plusDefaults ct p t r`: `r` is `t` with the Optional defaults of `p` filled in -/
+def plusDefaults (ct : ClassTable) : Spec → V → V → Bool
+  | .list alts, t, r =>
+    (match t, r with
+     | .list xs, .list ys => listAll2 (plusAny ct alts) xs ys
+     | _, _ => false)
+  | .tuple ps, t, r =>
+    (match t, r with
+     | .tuple xs, .tuple ys => xs.length == ys.length && plusZip ct ps xs ys
+     | _, _ => false)
+  | .dict es, t, r =>
+    (match t, r with
+     | .dict items, .dict res =>
+       !pureKeys es ||
+       (listAll2 (fun kv kv' => valEq kv'.1 kv.1 && plusVal ct es kv.2 kv'.2) items (res.take items.length) &&
+        (match defaultsRef t (dictDefaults es) (res.take items.length) with
+         | .ok res' => listAll2 (fun a b => valEq a.1 b.1 && valEq a.2 b.2) res' res
+         | .error _ => false))
+     | _, _ => false)
+  | p, t, r => !pureP p || valEq r t
+def plusAny (ct : ClassTable) : List Spec → V → V → Bool
+  | [], _, _ => false
+  | a :: as, x, y => plusDefaults ct a x y || plusAny ct as x y
+def plusZip (ct : ClassTable) : List Spec → List V → List V → Bool
+  | p :: ps, x :: xs, y :: ys => plusDefaults ct p x y && plusZip ct ps xs ys
+  | _, _, _ => true
+def plusVal (ct : ClassTable) : List (KeyKind × Spec × Spec) → V → V → Bool
+  | [], _, _ => false
+  | (_, _, vs) :: r, v, v' => plusDefaults ct vs v v' || plusVal ct r v v'
 end
 
 /-! ### calm evaluations: nothing can fault
@@ -270,25 +326,25 @@ def calm (ct : ClassTable) : Spec → V → Bool
   | .not c, t => calm ct c t
   | .matchS c _, t => calm ct c t
   | .switch cases _, t => calmC ct cases t
-  | .check a, _ => (match checkInit a with | .ok _ => true | .error _ => false)
+  | .check a, _ => (match checkObjRef a with | .ok _ => true | .error _ => false)
   | .list alts, t =>
-    (match t with
+    (match t.unsub with
      | .list items => items.all (calmL ct alts)
      | _ => true)
   | .set alts, t =>
-    (match t with
+    (match t.unsub with
      | .set items => items.all (calmL ct alts) && pureL alts && wfL items && items.all V.hashable
      | _ => true)
   | .fset alts, t =>
-    (match t with
+    (match t.unsub with
      | .fset items => items.all (calmL ct alts) && pureL alts && wfL items && items.all V.hashable
      | _ => true)
   | .tuple ps, t =>
-    (match t with
+    (match t.unsub with
      | .tuple items => calmZ ct ps items
      | _ => true)
   | .dict es, t =>
-    (match t with
+    (match t.unsub with
      | .dict items => items.all (fun kv => calmD ct es kv.1 kv.2)
      | _ => true)
   | _, _ => true
@@ -350,7 +406,8 @@ def obsIsOk : Obs → Bool
       are the ones the reading evaluates;
     * when nothing faults, pass/reject is exactly `conforms` (or the default);
     * `verify` gives the same outcome, `matches` is True exactly when it passes;
-    * the target is unchanged; and a pattern without defaults returns a value equal to it. -/
+    * the target is unchanged; a pattern without defaults returns a value equal to it; in general
+      the result is the target plus Optional defaults, structurally (`plusDefaults`). -/
 def checkC09 (ct : ClassTable) (p : Spec) (d : Option Arg) (t : V) (o : Obs9) : Bool :=
   match ctorErr p with
   | some e => o.main == .ctor e.cls
@@ -372,38 +429,30 @@ def checkC09 (ct : ClassTable) (p : Spec) (d : Option Arg) (t : V) (o : Obs9) : 
     (!(pureP p && d.isNone && wfV t) ||
      (match o.main with
       | .ok v _ => valEq v t
+      | _ => true)) &&
+    -- "… plus Optional defaults": the result has the target's shape, entry by entry, and what
+    -- it has beyond the target are the defaults of the Optional keys the target lacks
+    (!(d.isNone && wfV t) ||
+     (match o.main with
+      | .ok v _ => plusDefaults ct p t v
       | _ => true))
 
 /-! ### histories -/
 
-/-- The property on ONE call of a history, judged against the class table of that moment: the
-    outcome is the denoted verdict (with the promised class and the callables that ran), pass /
-    reject is exactly `conforms` when nothing faults, and a default-free pattern returns a
-    value equal to the target. -/
-def checkCall (ct : ClassTable) (p : Spec) (d : Option Arg) (t : V) (o : Obs) : Bool :=
-  let den := denote ct (.matchS p d) t
-  obsSat den.1 den.2 o &&
-  (!constDefaults p ||
-   (match den.1 with
-    | .fault _ => true
-    | .pass _ => conforms ct p t || dfltOK d t
-    | .reject _ => !(conforms ct p t || dfltOK d t))) &&
-  (!(pureP p && d.isNone && wfV t) ||
-   (match o with
-    | .ok v _ => valEq v t
-    | _ => true))
-
-/-- what a history shows: one observation per call, nothing per registration -/
-def obsHist (env : Env) (p : Spec) (d : Option Arg) (steps : List HStep) (ct : ClassTable) :
-    List (Option Obs) :=
-  (runHist env p d steps ct).map (Option.map (observe env))
+/-- what a history shows: per call the FULL observation (`glom`, `verify`, `matches`, snapshot of
+    the target afterwards), nothing per registration -/
+def obsHist (env : Env) (p : Spec) (d : Option Arg) : List HStep → ClassTable → List (Option Obs9)
+  | [], _ => []
+  | .call t :: rest, ct => some (observe9 (env.withCls ct) p d t) :: obsHist env p d rest ct
+  | .register a k :: rest, ct => none :: obsHist env p d rest (registerCls ct a k)
 
 /-- The property on a history: every call decides *its* target by the type relation *as it is
     at that call* — whatever was matched before (same classes, other instances), and
-    whichever registrations happened in between. -/
-def checkHist (p : Spec) (d : Option Arg) : List HStep → ClassTable → List (Option Obs) → Bool
+    whichever registrations happened in between — with everything `checkC09` demands of a
+    single call: `verify` / `matches` agree, the target is unchanged afterwards. -/
+def checkHist (p : Spec) (d : Option Arg) : List HStep → ClassTable → List (Option Obs9) → Bool
   | [], _, os => os.isEmpty
-  | .call t :: rest, ct, some o :: os => checkCall ct p d t o && checkHist p d rest ct os
+  | .call t :: rest, ct, some o :: os => checkC09 ct p d t o && checkHist p d rest ct os
   | .register a k :: rest, ct, none :: os => checkHist p d rest (registerCls ct a k) os
   | _, _, _ => false
 
@@ -419,6 +468,15 @@ structure Facts9 where
   fresh : List (String × String)
   identity : List (String × String × Bool)
   moduleWrites : List (String × String × String)
+  userAttrs : List (String × String)
+
+/-- the attributes `_glom_match` / `_handle_dict` read directly off user objects: `.key` /
+    `.default` of a key that was just found to be an `Optional` / `Required`, and `.items` of a
+    target that was just found to be a dict — nothing of a callable, a type or any other spec
+    (`spec.__name__` in a message made callables without `__name__` fail: /repo f18ec61) -/
+def expectedUserAttrs : List (String × String) :=
+  [("_handle_dict", "key.default"), ("_handle_dict", "key.key"), ("_handle_dict", "maybe_spec_key.key"),
+   ("_handle_dict", "target.items")]
 
 def expectedPrecedence : List (String × String) :=
   [("type(match) in (Required, Optional)", "match = match.key"),
@@ -506,10 +564,13 @@ def precStep (recur : Spec → Nat) : List (String × String) → KeyKind → Sp
     * `_glom` tries T, then `glomit`, then the mode function;
     * `_precedence` and the `required` / `defaults` comprehensions of `_handle_dict` are the
       ones the model transcribes;
-    * **frame**: every object `_glom_match`, `_handle_dict`, `Regex.glomit`, `Match.glomit`,
-      `Optional.glomit` store into or call a mutating method on is the scope or a local bound
-      to a fresh display / comprehension in the same function — never the target or the spec;
+    * **frame**: every object that `_glom_match`, `_handle_dict` or any `glomit` / `_glomit` /
+      `matches` / `verify` method of matching.py stores into, deletes from or calls a mutating
+      method / `setattr` on is the scope or a local ALL of whose bindings in that function are
+      fresh displays / comprehensions — never the target or the spec;
     * TypeMatchError is a MatchError and a TypeError; `Match.matches` catches GlomError;
+    * **callables are only called**: the matcher reads no attribute of a user's spec object or
+      target beyond `expectedUserAttrs`;
     * **no state between calls**: no function or method of matching.py stores into, deletes from
       or calls a mutating method on an object bound at module level, or rebinds a global — the
       matcher remembers nothing from one call to the next (what lets a history be judged call by call);
@@ -518,6 +579,7 @@ def precStep (recur : Spec → Nat) : List (String × String) → KeyKind → Sp
       default given" in Match / And / Or / Switch / Optional) and `RAISE` (Check) in particular;
       `identityExempt` lists the two that do not (see there). -/
 def WF9 (env : Env) (f : Facts9) : Bool :=
+  f.userAttrs == expectedUserAttrs &&
   f.moduleWrites.isEmpty &&
   markersOK f.identity &&
   f.matchOrder == ["type", "dict", "listlike", "tuple", "callable", "ne"] &&
